@@ -4,12 +4,52 @@ import json, subprocess
 
 # id -> (level category, level text, level note, technique, design ref)
 CLAIMED = {
+ "C02": ("fault_enumeration",
+         "Real Router between scripted subscriber/publisher ends: the full matrix of 24 handler behaviours x 4 publisher behaviours x 3 handler kinds x 8 middleware prefixes (1028 cells, each with 1 and with 2..16 messages in flight) plus random batches; every invocation, Publish call (with the consumed message's settlement sampled inside the call) and settlement is judged against a reference function; 'never settles' decided by the quiescence detector.",
+         "Trusts the scripted ends, the reference function expect(kind, middleware, handler, publisher) and the Go race detector; schedules are what yield injection at the router hook points produces.",
+         "enumerated behaviour matrix + differential reference oracle over boundary event log + quiescence detector", "DESIGN.md §4 C02"),
  "C03": ("exploration",
          "Runs the real Message.Ack/Nack/Acked/Nacked code: all 87381 op sequences of length <=8 on 5 message kinds against a 3-state reference model (exhaustive), "
          "plus thousands of concurrent histories of 2..16 goroutines recorded at the call boundary and checked for linearizability with porcupine, under the Go race detector. "
          "Held on the executions observed, not a proof over all schedules.",
          "Trusts porcupine v1.3.0, the Go race detector and the 3-state model; concurrent reach is what the scheduler plus Gosched injection produces.",
          "exhaustive sequence enumeration vs reference model + porcupine linearizability check of recorded histories + race detector", "DESIGN.md §4 C03"),
+ "C04": ("exploration",
+         "Generated concurrent programs on a real GoChannel in all 12 configurations (publishers, subscriptions created before/while publishing, nacking/slow/metadata-editing/cancelling consumers) with yield/delay injection at the gochannel hook points; the recorded history (publish start/end, subscribe end, receive with deep snapshot and context facts, settle start) is judged at quiescence for completeness, no foreign delivery, redelivery only after Nack, copy isolation and context lifetime.",
+         "Held on the programs and interleavings observed; completeness is demanded only where the logical stamps prove Subscribe returned before Publish started.",
+         "offline checker over recorded delivery history (multiset/ordering/aliasing) at quiescence + hook-point schedule perturbation + race detector", "DESIGN.md §4 C04"),
+ "C08": ("exploration",
+         "Random routers of 1..6 handlers with shared/private topics and scripted ends; every handler invocation, every Publish call on every publisher and the five context accessors are attributed and compared with the wiring.",
+         "Trusts the scripted ends and the literal expected names; schedules as produced by concurrent streams plus hook yields.",
+         "reference-model oracle over handler-invocation and publish-call logs", "DESIGN.md §4 C08"),
+ "C09": ("exploration",
+         "All middleware registration sequences up to length 5 (quick) / 6 (thorough) over {router-level, A, B} interleaved with AddHandler in every allowed position (exhaustive within the bound), random sequences up to length 20 with 4 handlers and RunHandlers, decorator lists up to 5; enter/leave traces compared with the expected nesting.",
+         "Exhaustive only inside the stated bounds; registrations racing the asynchronous middleware snapshot are not generated (unspecified).",
+         "bounded exhaustive enumeration of registration programs + trace comparison against reference nesting", "DESIGN.md §4 C09"),
+ "C12": ("exploration",
+         "Random Retry configurations and handler scripts on the real middleware: call counts, returned outputs/errors, OnRetryHook sequence and delays (pure arithmetic bounds), measured back-off gaps as lower bounds only, early give-up on context end (decided by quiescence) and MaxElapsedTime (with a control timer; late control timer => inconclusive).",
+         "Lower bounds and bracketing only for time; MaxInterval >= InitialInterval; multipliers outside 1..3 are used only to make one specific wait long.",
+         "differential reference oracle over call/hook logs + lower-bound timing + quiescence detector", "DESIGN.md §4 C12"),
+ "C13": ("exploration",
+         "Random handler results, filters, poison-publisher outcomes and messages through the real PoisonQueue middleware stand-alone and inside a real Router; every invocation is judged (publish exactly once with same UUID/payload and metadata = original + 4 keys, error cleared only after a successful publish, settlement) plus the whole-run invariant acked => handled or poisoned.",
+         "Trusts the scripted ends; names stand-alone are empty because the context keys are unexported.",
+         "differential reference oracle + run-wide conservation invariant over event logs", "DESIGN.md §4 C13"),
+ "C15": ("exploration",
+         "Random registries over a family of JSON/protobuf/gogo types, all marshalers/name generators/flag settings, streams mixing known, near-miss, malformed and foreign messages with scripted handler failures, through real buses and command/event/event-group processors on a real Router; bus publishes, handler invocations (values, order) and settlements compared with a reference dispatch function.",
+         "Malformed is defined through an independent reference codec; redelivery bounded by the scripted subscriber.",
+         "reference dispatch function (registry, flags, message) as differential oracle over invocation/settlement logs", "DESIGN.md §4 C15"),
+ "C16": ("exploration",
+         "Generated messages and single-component-difference pairs for Equals/Copy (both argument orders, independent comparison), round-trips through the three CQRS marshalers, the forwarder Publisher->envelope->Forwarder path on a real Router and the request-reply marshaler, over arbitrary bytes and valid UTF-8.",
+         "Input sampling (about 25k inputs quick, 1.2M thorough); pure functions, so schedules do not matter.",
+         "property-style differential testing of the real codecs against independent comparisons", "DESIGN.md §4 C16"),
+ "C19": ("exploration",
+         "All ordered selections of 1..3 simple middlewares with and without Retry at every position (1928 chains) plus random chains and DelayOnError sequences on scripted handlers (outputs, error shapes, panics of any value incl. nil, waiting for the deadline), judged against a compositional reference model; Throttle by a sound absolute lower bound.",
+         "Time only as lower bounds/bracketing; %w wrappers around listed errors are not judged (documented Cause rule).",
+         "compositional reference-model differential oracle on real middleware chains + quiescence detector", "DESIGN.md §4 C19"),
+ "C20": ("exploration",
+         "Decorator stacks up to depth 3 (transform, delay.Publisher, metrics incl. the same builder twice) around scripted ends, batches mixing delay sources, all PublisherConfigs, inner failure scripts, and a Router with handler outcomes {success, error, panic, publish failure}; transparency, delay precedence/stamps (bracketed), and Prometheus Gather() counts compared with the harness's own event counts.",
+         "delayed_until bracketed by stamps around the call; label values other than success/acked not judged.",
+         "transparency/differential oracle + conservation check of Prometheus counters against harness event counts", "DESIGN.md §4 C20"),
 }
 
 NOT_YET = {}
